@@ -3,4 +3,5 @@ CONSTANTS
   NPs = {1, 2, 3}
   MaxFields = 2
   Later = {"sigM", "sigK", "sigK2", "grp", "grp3", "grpFT", "tx"}
-INVARIANTS KeepDisjoint NoSigNoPerms Emit
+  IndDims = {"perms", "acro", "fields", "kids"}
+INVARIANTS KeepDisjoint NoSigNoPerms FlagsDoNotSign Emit
